@@ -1977,11 +1977,16 @@ def p_instanceDeclaration(p):
                 pprop.value = cimvalue(pval, cprop.type)
             inst.properties[pname] = pprop
         except (ValueError, TypeError, OverflowError) as ve:
+            try:
+                pval_str = repr(pval)
+            except ValueError:
+                # integer beyond the int/str conversion limit
+                pval_str = "(value cannot be displayed)"
             raise MOFParseError(
                 msg=_format(
                     "Cannot compile instance of {0!A} because it specifies "
-                    "property {1!A} with an invalid value {2!r}: {3}",
-                    cname, pname, pval, ve),
+                    "property {1!A} with an invalid value {2}: {3}",
+                    cname, pname, pval_str, ve),
                 parser_token=p)
 
     # Returns the created instance and either the alias name or None
